@@ -119,6 +119,11 @@ def extra_cases():
         for unknown in ({"kty": "AKP", "alg": "ML-DSA-44", "pub": "AAAA"}, {"kty": "XYZ"}):
             for n_unknown in (1, 2):
                 out.append({"op": "unknown_kty_set", "form": form, "unknown": unknown, "n_unknown": n_unknown})
+    # the relying-party integrations (parse_id_token): an ID token without kid against a provider JWKS of several keys — none is designated
+    for fw in ("flask", "django", "starlette"):
+        for nkeys in (1, 2, 3):
+            for signer in range(nkeys):
+                out.append({"op": "rp_kidless", "fw": fw, "nkeys": nkeys, "signer": signer})
     # a token that carries its maker's own key in a "jwk" header, presented where the caller designates a degenerate (empty) key: never accepted
     for api in ("jws", "jwt", "jwe-dir", "jwe-A256KW", "jwe-json"):
         for key in ("b''", "''", "[]", "{}", "{'keys': []}", "0", "False", "KeySet([])", "()"):
@@ -203,6 +208,17 @@ def impl_extra(c):
             return {"accepted": True}
         except Exception as e:
             return {"accepted": False, "error": type(e).__name__}
+    if c["op"] == "rp_kidless":
+        import rpclient as rc
+        import memserver as ms
+        ms.install_clock()
+        ks = [OctKey.import_key(bytes([65 + i]) * 32, {"kid": f"k{i}"}) for i in range(c["nkeys"])]
+        from authlib.jose import jwt as _jwt
+        now = int(ms.CLOCK())
+        # (signed with the bare octets: jwt.encode copies a Key object's kid into the header)
+        tok = _jwt.encode({"alg": "HS256"}, {"iss": rc.ISSUER, "sub": "u", "aud": "cid", "exp": now + 600, "iat": now, "nonce": "n"}, bytes([65 + c["signer"]]) * 32).decode()
+        r = rc.parse(c["fw"], {"id_token": tok, "access_token": "at"}, "n", jwks={"keys": [dict(k.as_dict(is_private=True)) for k in ks]})
+        return {"accepted": bool(r.get("accepted")), "error": r.get("error") or r.get("raised")}
     if c["op"] == "unknown_kty_set":
         from authlib.jose import JsonWebKey
         k = OctKey.import_key(b"A" * 32)
@@ -375,7 +391,7 @@ ERR = [(je.MissingAlgorithmError, "missing_algorithm"), (je.UnsupportedAlgorithm
 def impl(c):
     if c["op"] == "confusion":
         return impl_confusion(c)
-    if c["op"] in ("kidtype", "jwe_allow", "callable", "embedded_jwk", "unknown_kty_set", "jwe_keyops", "jws_keyops"):
+    if c["op"] in ("kidtype", "jwe_allow", "callable", "embedded_jwk", "unknown_kty_set", "rp_kidless", "jwe_keyops", "jws_keyops"):
         return impl_extra(c)
     tok, header = make_token(c)
     arg = c["arg"]
@@ -459,7 +475,7 @@ def model_line(c):
             hdr["jwk"] = kd(kty, crv, signer)
         answer = {"right": kd(kty, crv, 1), "none": None, "wrong": kd(kty, crv, 2 if signer == 1 else 1)}[c["returns"]]
         return {"op": "policy", "allowed": [c["alg"]] if c["api"] == "jwt" else None, "private_headers": [], "hdr": hdr, "arg": {"resolver": answer}}
-    if c["op"] in ("kidtype", "jwe_allow", "embedded_jwk", "jws_keyops", "unknown_kty_set"):
+    if c["op"] in ("kidtype", "jwe_allow", "embedded_jwk", "jws_keyops", "unknown_kty_set", "rp_kidless"):
         return None
     if c["op"] == "confusion":
         return {"op": "oct_import", "raw": c["raw"]}
@@ -583,6 +599,13 @@ def oracle(c, out):
         if not out["accepted"] and want:
             v.append((f"{c['api']}: token signed by the key the resolver returns was refused ({out.get('error')})", {"kind": "refused-within-policy", "alg": c["alg"], "form": "callable"}))
         return v
+    if c["op"] == "rp_kidless":
+        if out["accepted"] and c["nkeys"] > 1:
+            v.append((f"[{c['fw']} client] parse_id_token: an ID token without kid verified against a provider JWKS of {c['nkeys']} keys (signed by key #{c['signer']}): several keys exist, none is designated",
+                      {"kind": "wrong-key-selected", "alg": "HS256", "form": "rp-jwks"}))
+        if not out["accepted"] and c["nkeys"] == 1:
+            v.append((f"[{c['fw']} client] parse_id_token refused a kid-less ID token although the provider's JWKS holds exactly its key: {out['error']}", {"kind": "refused-within-policy", "alg": "HS256", "form": "rp-jwks"}))
+        return v
     if c["op"] == "unknown_kty_set":
         if out["accepted"]:
             v.append((f"a token without kid verified against a key set of {c['n_unknown'] + 1} members (given as {c['form']}; {c['n_unknown']} of them of the unknown type {c['unknown']['kty']!r}): "
@@ -618,7 +641,7 @@ def classify(c, out):
         return f"jwe_keyops/{c['alg']}/{out['encrypt']}/{out['decrypt']}"
     if c["op"] == "jws_keyops":
         return f"jws_keyops/{c['kind']}/{out['sign']}/{out['verify']}"
-    if c["op"] in ("kidtype", "jwe_allow", "callable", "embedded_jwk", "unknown_kty_set"):
+    if c["op"] in ("kidtype", "jwe_allow", "callable", "embedded_jwk", "unknown_kty_set", "rp_kidless"):
         return c["op"] + "/" + ("accepted" if out["accepted"] else "refused")
     if c["op"] == "confusion":
         return "confusion/" + ("accepted" if out["accepted"] else "refused") + ("/loads" if out["_loads"] else "")
